@@ -50,6 +50,17 @@
 (*             resolved, the tracer must not be wired     sh_f.h:120-127   *)
 (*   late      default constructed, then get_promise(): init_if_needed +   *)
 (*             get_promise of the future + charge         sh_f.h:130-145   *)
+(*   init      default constructed, init_if_needed() called explicitly     *)
+(*             (twice: the second call must do nothing): a fresh state     *)
+(*             exists (slot = &awaiter::instance, "inst") BEFORE the       *)
+(*             promise is taken.  Handles are copied, polled and dropped   *)
+(*             (not the last one), then any holder calls get_promise(): it *)
+(*             must keep the existing state (init_if_needed does nothing), *)
+(*             make it pending and charge the tracer -- every earlier copy *)
+(*             shares the state that is resolved.  Awaiting a fresh state  *)
+(*             is illegal in the underlying future (future::get_promise    *)
+(*             overwrites the slot, future.h:283-284 asserts), so awaits   *)
+(*             start only after get_promise() has returned.                *)
 (*   shl       default constructed, init_if_needed(), then `f << fn` with  *)
 (*             fn returning a pending future<T>           sh_f.h:197-205   *)
 (*             Fixed = FALSE: the code as found before /repo 75cf97d --    *)
@@ -92,7 +103,7 @@ OwnerOf(n) == CHOOSE h \in H : n \in {N(h, "co"), N(h, "bl"), N(h, "cb"), N(h, "
 VARIABLES
     mode, rkind,   \* chosen by Setup, constant afterwards
     st,        \* the shared state (future_internal + control block): "none" | "alive" | "freed"
-    slot,      \* future::_awaiter: "null" | "ready" | node
+    slot,      \* future::_awaiter: "null" | "ready" | "inst" (fresh, &awaiter::instance) | node
     nxt,       \* awaiter::_next of every node (doubles as the expected value of its CAS)
     tag,       \* future::_state: "none" | "val" | "exc"
     payload,   \* who stored the result
@@ -171,7 +182,7 @@ Setup(m, k) ==
     /\ mode' = m
     /\ rkind' = k
     /\ st' = IF m = "late" THEN "none" ELSE "alive"
-    /\ slot' = IF m \in ReadyModes THEN "ready" ELSE "null"
+    /\ slot' = IF m \in ReadyModes THEN "ready" ELSE IF m = "init" THEN "inst" ELSE "null"
     /\ tag' = CASE m \in {"fnsync", "setval", "asyncsync"} -> "val" [] m = "setexc" -> "exc" [] OTHER -> "none"
     /\ payload' = CASE m = "fnsync" -> "fn" [] m \in {"setval", "setexc"} -> "sv" [] m = "asyncsync" -> "coro" [] OTHER -> "none"
     /\ nh' = [h \in H |-> IF h = Ctor /\ m # "late" THEN 1 ELSE 0]
@@ -179,13 +190,13 @@ Setup(m, k) ==
     /\ tref' = IF m \in ChargeModes THEN TrefOn ELSE 0
     /\ tmp' = IF m \in ChargeModes THEN 1 ELSE 0
     /\ vlive' = IF m \in {"fnsync", "setval", "asyncsync"} THEN 1 ELSE 0
-    /\ rpc' = IF m \in {"fn", "retfut", "async", "shl"} THEN StartPc(k) ELSE IF m = "late" THEN "nopromise" ELSE "done"
+    /\ rpc' = IF m \in {"fn", "retfut", "async", "shl"} THEN StartPc(k) ELSE IF m \in {"late", "init"} THEN "nopromise" ELSE "done"
     (* shl as found: operator<< has returned, nothing was charged *)
     /\ pc' = [h \in H |-> IF h # Ctor THEN "idle"
-                          ELSE CASE m \in ChargeModes -> "pre_cas" [] m = "late" -> "null_idle"
+                          ELSE CASE m \in ChargeModes -> "pre_cas" [] m = "late" -> "null_idle" [] m = "init" -> "idle"
                                  [] m = "shl" /\ ~Fixed -> "idle" [] OTHER -> "pre_pload"]
     /\ cop' = [h \in H |-> IF h # Ctor THEN "none"
-                           ELSE CASE m \in ChargeModes -> "charge" [] m = "late" -> "none"
+                           ELSE CASE m \in ChargeModes -> "charge" [] m \in {"late", "init"} -> "none"
                                   [] m = "shl" /\ ~Fixed -> "none" [] OTHER -> "ctor2"]
     /\ UNCHANGED <<nxt, cref, copies, vdtor, cur, rest, sp, flag, did, seen, resumes, uaf>>
 
@@ -235,6 +246,7 @@ Copy(h, g) ==
 (* ~shared_future of one handle *)
 Drop(h) ==
     /\ pc[h] = "idle" /\ nh[h] >= 1
+    /\ ~(slot = "inst" /\ Use = 1)      \* mode init: somebody keeps a handle to take the promise with
     /\ nh' = [nh EXCEPT ![h] = @ - 1]
     /\ Touch
     /\ Unref
@@ -254,14 +266,14 @@ BeginPoll(h) ==
 
 (* f.wait() *)
 BeginWait(h) ==
-    /\ h \in HBl
+    /\ h \in HBl /\ rpc # "nopromise"
     /\ Begin(h, "bl", "pre_check")
     /\ UNCHANGED <<mode, rkind, st, slot, nxt, tag, payload, nh, cref, tref, tmp, copies, vlive, vdtor, rpc, cur, rest, sp, flag, seen, resumes, uaf>>
 
 (* a coroutine taking the shared_future by value is started: the frame holds its own handle;
    it runs up to the load of await_ready *)
 BeginCo(h) ==
-    /\ h \in HCo
+    /\ h \in HCo /\ rpc # "nopromise"
     /\ Begin(h, "co", "pre_check")
     /\ cref' = [cref EXCEPT ![h] = 1]
     /\ Touch
@@ -270,7 +282,7 @@ BeginCo(h) ==
 (* f.operator co_await().subscribe(&cb): no readiness check before the CAS.  The callback keeps no
    handle: it reads the result through the future reference it was given *)
 BeginCb(h) ==
-    /\ h \in HCb
+    /\ h \in HCb /\ rpc # "nopromise"
     /\ Begin(h, "cb", "pre_cas")
     /\ UNCHANGED <<mode, rkind, st, slot, nxt, tag, payload, nh, cref, tref, tmp, copies, vlive, vdtor, rpc, cur, rest, sp, flag, seen, resumes, uaf>>
 
@@ -292,6 +304,20 @@ LateInit(h) ==
     /\ pc' = [pc EXCEPT ![h] = "pre_cas"]
     /\ cop' = [cop EXCEPT ![h] = "charge"]
     /\ UNCHANGED <<mode, rkind, slot, nxt, tag, payload, cref, copies, vlive, vdtor, rpc, cur, rest, sp, flag, did, seen, resumes, uaf>>
+
+(* mode init: get_promise() through a handle of the already existing fresh state: init_if_needed does
+   nothing (the state and with it every other copy is kept), future::get_promise makes the state
+   pending, charge() runs up to its CAS *)
+GetPromise(h) ==
+    /\ pc[h] = "idle" /\ nh[h] >= 1
+    /\ slot = "inst"
+    /\ slot' = "null"
+    /\ tref' = TrefOn
+    /\ tmp' = 1
+    /\ pc' = [pc EXCEPT ![h] = "pre_cas"]
+    /\ cop' = [cop EXCEPT ![h] = "charge"]
+    /\ Touch
+    /\ UNCHANGED <<mode, rkind, st, nxt, tag, payload, nh, cref, copies, vlive, vdtor, rpc, cur, rest, sp, flag, did, seen, resumes>>
 
 -----------------------------------------------------------------------------
 (* handle threads: atomic operations and the local code after them *)
@@ -554,7 +580,7 @@ PostNotify(r) ==
 ResolverStep(r) == \/ PreClaim(r) \/ PostClaim(r) \/ PreDload(r) \/ PostDload(r) \/ PreFinal(r)
                    \/ PreSwap(r) \/ PostSwap(r) \/ PreFstore(r) \/ PostFstore(r) \/ PreNotify(r) \/ PostNotify(r)
 
-HandleStep(h) == \/ Drop(h) \/ BeginPoll(h) \/ BeginWait(h) \/ BeginCo(h) \/ BeginCb(h) \/ NullPoll(h) \/ LateInit(h)
+HandleStep(h) == \/ Drop(h) \/ BeginPoll(h) \/ BeginWait(h) \/ BeginCo(h) \/ BeginCb(h) \/ NullPoll(h) \/ LateInit(h) \/ GetPromise(h)
                  \/ PrePload(h) \/ PostPload(h) \/ PreCheck(h) \/ PostCheck(h) \/ PreCAS(h) \/ PostCAS(h)
                  \/ PreFence(h) \/ PostFence(h) \/ PreWait(h) \/ PostWait(h)
                  \/ \E g \in H : Copy(h, g)
@@ -562,7 +588,7 @@ HandleStep(h) == \/ Drop(h) \/ BeginPoll(h) \/ BeginWait(h) \/ BeginCo(h) \/ Beg
 Next == \/ \E m \in Modes : \E k \in KindsOf(m) : Setup(m, k)
         \/ \E r \in {R} : PreClaim(r) \/ PostClaim(r) \/ PreDload(r) \/ PostDload(r) \/ PreFinal(r)
                           \/ PreSwap(r) \/ PostSwap(r) \/ PreFstore(r) \/ PostFstore(r) \/ PreNotify(r) \/ PostNotify(r)
-        \/ \E h \in H : \/ Drop(h) \/ BeginPoll(h) \/ BeginWait(h) \/ BeginCo(h) \/ BeginCb(h) \/ NullPoll(h) \/ LateInit(h)
+        \/ \E h \in H : \/ Drop(h) \/ BeginPoll(h) \/ BeginWait(h) \/ BeginCo(h) \/ BeginCb(h) \/ NullPoll(h) \/ LateInit(h) \/ GetPromise(h)
                         \/ PrePload(h) \/ PostPload(h) \/ PreCheck(h) \/ PostCheck(h) \/ PreCAS(h) \/ PostCAS(h)
                         \/ PreFence(h) \/ PostFence(h) \/ PreWait(h) \/ PostWait(h)
         \/ \E h \in H : \E g \in H : Copy(h, g)
@@ -583,7 +609,7 @@ RPcs == {"nopromise", "pre_claim", "post_claim", "pre_dload", "post_dload", "pre
 
 TypeOK ==
     /\ st \in {"none", "alive", "freed"}
-    /\ slot \in {"null", "ready"} \cup ChainNodes
+    /\ slot \in {"null", "ready", "inst"} \cup ChainNodes
     /\ \A n \in ChainNodes : nxt[n] \in {"null", "ready"} \cup ChainNodes
     /\ tag \in {"none", "val", "exc"}
     /\ tref \in {0, 1} /\ tmp \in {0, 1}
@@ -599,26 +625,28 @@ Terminal == /\ mode # "unset"
 RefcountExact == (st = "alive") <=> (Use > 0)
 
 (* ... in particular while it is pending, whatever the handles do *)
-AliveWhilePending == (st # "none" /\ slot # "ready") => (st = "alive" /\ Use > 0)
+AliveWhilePending == (st # "none" /\ slot \notin {"ready", "inst"}) => (st = "alive" /\ Use > 0)
 
 (* the tracer holds its self reference exactly while the future is pending: from charge() on,
    until the chain walk reaches it -- which is after the resolving exchange *)
+Charging == \E h \in H : cop[h] = "charge"
 TracerWhilePending ==
-    /\ (st = "alive" /\ slot # "ready" /\ cop[Ctor] # "ctor2") => tref = 1
-    /\ (rpc = "done" /\ cop[Ctor] # "charge") => tref = 0
+    /\ (st = "alive" /\ slot \notin {"ready", "inst"} /\ cop[Ctor] # "ctor2") => tref = 1
+    /\ (rpc = "done" /\ ~Charging) => tref = 0
+    /\ slot = "inst" => tref = 0
 
 (* construction from an already resolved future never wires the tracer *)
 NotWiredWhenReady == mode \in {"setval", "setexc", "asyncsync"} => (tref = 0 /\ tmp = 0 /\ nxt[TR] = "null" /\ slot = "ready")
 
 (* the tracer was subscribed first, therefore it is the last node of the chain *)
 RECURSIVE ChainFrom(_, _)
-ChainFrom(n, fuel) == IF n \in {"null", "ready"} \/ fuel = 0 THEN <<>> ELSE <<n>> \o ChainFrom(nxt[n], fuel - 1)
+ChainFrom(n, fuel) == IF n \in {"null", "ready", "inst"} \/ fuel = 0 THEN <<>> ELSE <<n>> \o ChainFrom(nxt[n], fuel - 1)
 Chain == ChainFrom(slot, Cardinality(ChainNodes) + 1)
 TracerLast ==
     /\ Len(Chain) <= Cardinality(ChainNodes)
     /\ \A i, j \in 1..Len(Chain) : i # j => Chain[i] # Chain[j]
     /\ \A i \in 1..Len(Chain) : Chain[i] = TR => i = Len(Chain)
-    /\ (slot \notin {"null", "ready"}) => Chain[Len(Chain)] = TR
+    /\ (slot \notin {"null", "ready", "inst"}) => Chain[Len(Chain)] = TR
 
 (* the stored value lives exactly as long as the state; it is destroyed at most once *)
 FreedOnce ==
@@ -654,6 +682,13 @@ LateInitWorks ==
         /\ (st = "none") <=> (pc[Ctor] = "null_idle")
         /\ (st # "none" /\ cop[Ctor] # "charge") => rpc # "nopromise"
         /\ (rpc = "nopromise" /\ st # "none") => (st = "alive" /\ slot # "ready" /\ tref = 1)
+(* mode init: the state that existed before get_promise() is the one that becomes pending, traced and resolved
+   (there is one state in the model; on the real side the replayer's probe stays bound to the first state) *)
+LateInitKeepsState ==
+    mode = "init" =>
+        /\ st # "none"
+        /\ (slot = "inst") => (st = "alive" /\ rpc = "nopromise" /\ ~Charging)
+        /\ (rpc = "nopromise" /\ slot # "inst") => (Charging /\ st = "alive" /\ tref = 1)
 
 NoStuckState == (~ ENABLED Next) => Terminal
 NoHang == <>[]Terminal
